@@ -146,6 +146,82 @@ def generate(ctx):
                                     "calls_expected_to_fail_that_succeeded": unexpected_ok},
                       "meta": {"impl_raised": False}, "sig": list(pref), "trivial": not failing,
                       "hist": {"op": "prefix", "length": len(pref), "first": pref[0] if pref else "-"}})
+    # ---- histories WITH successful writes, and results of operations that return a new frame.
+    # Two frames holding equal data answer every probe alike, whatever else happened to them:
+    #   A = fresh frame, noise (read-only or failing calls) interleaved with effects (successful in-place writes)
+    #   B = fresh frame, the effects only
+    # and for an operation that returns a frame: R = op(A) against B' = the same operation done in place on a fresh frame.
+    st = pa.struct([("my f", pa.list_(pa.int64())), ("a", pa.list_(pa.float64()))])
+    effects = {
+        "E_array_setitem": lambda nf: nf["n"].array.__setitem__(np.array([0, 2]), pack_seq(
+            [{"my f": [7, 7], "a": [1.0, 2.0]}, {"my f": [], "a": []}], dtype=st).array),
+        "E_iloc_setitem": lambda nf: nf["n"].iloc.__setitem__([1], pack_seq([{"my f": [4, 5], "a": [None, 8.5]}], dtype=st).array),
+        "E_setfield": lambda nf: nf.__setitem__("n.a", np.arange(float(nf["n"].nest.flat_length)) * 1.5),
+        "E_eval_inplace": lambda nf: nf.eval("n.c = n.`my f` * 2", inplace=True),
+        "E_query_inplace": lambda nf: nf.query("n.`my f` > 1", inplace=True),
+    }
+    derived = {
+        "D_eval_assign": (lambda nf: nf.eval("n.c = n.`my f` + 1"), lambda nf: nf.eval("n.c = n.`my f` + 1", inplace=True), "n.c = n.`my f` + 1"),
+        "D_eval_assign_base": (lambda nf: nf.eval("c = x + 1"), lambda nf: nf.eval("c = x + 1", inplace=True), "c = x + 1"),
+        "D_query": (lambda nf: nf.query("n.`my f` > 1"), lambda nf: nf.query("n.`my f` > 1", inplace=True), "n.`my f` > 1"),
+        "D_sort": (lambda nf: nf.sort_values("n.`my f`"), lambda nf: nf.sort_values("n.`my f`", inplace=True), None),
+        "D_dropna": (lambda nf: nf.dropna(subset=["n.`a`"]), lambda nf: nf.dropna(subset=["n.`a`"], inplace=True), None),
+        "D_copy": (lambda nf: nf.copy(), lambda nf: None, None),
+    }
+    noise = [n_ for n_ in names]
+    plans = []
+    for e in effects:
+        plans.append(((), e, None))
+        for nz in noise:
+            plans.append(((nz,), e, None))
+    for d in derived:
+        plans.append(((), None, d))
+        for nz in (noise if ctx.tier != "quick" else rng.sample(noise, 6)):
+            plans.append(((nz,), None, d))
+        for e in effects:
+            plans.append(((rng.choice(noise),), e, d))
+    if ctx.tier != "quick":
+        for _ in range(300):
+            plans.append((tuple(rng.choice(noise) for _ in range(rng.randint(1, 3))), rng.choice(list(effects)), rng.choice([None] + list(derived))))
+    for noise_pref, eff, der in plans:
+        a_frame, b_frame = make(), make()
+        steps = list(noise_pref) + ([eff] if eff else [])
+        if eff and len(noise_pref) and rng.random() < 0.5:
+            steps = [eff] + list(noise_pref)          # noise after the write as well as before it
+        problems = []
+        for name in steps:
+            r = attempt(lambda: (effects[name] if name in effects else OPS[name])(a_frame))
+            if name in effects and r[0] == "err":
+                problems.append(f"harness: effect {name} raised {r[1]}")
+        if eff:
+            r = attempt(lambda: effects[eff](b_frame))
+        if fo.snapshot(a_frame) != fo.snapshot(b_frame):
+            problems.append("the noise changed the data")
+        target_a, target_b = a_frame, b_frame
+        observed_none = getattr(a_frame, "_aliases", None) is None
+        if der:
+            ra = attempt(lambda: derived[der][0](a_frame))
+            rb = attempt(lambda: derived[der][1](b_frame))
+            if ra[0] == "err" or rb[0] == "err":
+                problems.append(f"derived operation raised: {ra[1] if ra[0] == 'err' else rb[1]}")
+            else:
+                target_a = ra[1]
+                if not isinstance(target_a, NestedFrame):
+                    problems.append("the result is not a NestedFrame")
+                    target_a = a_frame
+                elif fo.snapshot(target_a) != fo.snapshot(target_b):
+                    problems.append("the returned frame differs from the same operation done in place on an equal frame")
+                observed_none = getattr(target_a, "_aliases", None) is None
+        got_a, got_b = probes(target_a), probes(target_b)
+        diff = [k for k in got_b if got_a[k] != got_b[k]]
+        if diff:
+            problems.append(f"probes differ between two frames holding equal data: {diff}")
+        term = f"[{cq_bool(observed_none)}; {cq_bool(not problems)}; true; true]"
+        cases.append({"stream": "history", "op": "equal_data", "term": term,
+                      "input": {"steps": steps, "derived": der},
+                      "impl_repr": {"problems": problems, "differences": {k: (str(got_a[k])[:200], str(got_b[k])[:200]) for k in diff[:3]}},
+                      "meta": {"impl_raised": False}, "sig": ["equal_data"] + steps + [der], "trivial": False,
+                      "hist": {"op": "equal_data", "effect": eff or "-", "derived": der or "-"}})
     for k, c in enumerate(cases):
         c["cid"] = k
     return cases
